@@ -154,7 +154,13 @@ def r2_accounting(prog, rep: Report, fm: Cls, mp: Func):
                       "received pair fed to the buffer; one increment and one complete yield per emitted chunk", "; ".join(ps),
                       scenario="results are yielded twice / partially, or the final wait loop never ends", line=e.lineno)
     # mul_p_map
-    apps = [c for c in calls_in(mp.node) if isinstance(c.func, ast.Attribute) and c.func.attr == "append"]
+    res_names = set()
+    for r_ in returns_of(mp.node):
+        for n_ in ast.walk(r_):
+            if isinstance(n_, ast.Call) and src(n_.func) == "sorted" and n_.args and isinstance(n_.args[0], ast.Name):
+                res_names.add(n_.args[0].id)
+    apps = [c for c in calls_in(mp.node) if isinstance(c.func, ast.Attribute) and c.func.attr == "append"
+            and isinstance(c.func.value, ast.Name) and (c.func.value.id in res_names or not res_names)]
     ok = len(apps) >= 2
     for a in apps:
         arg = a.args[0] if a.args else None
